@@ -265,6 +265,15 @@ theorem fifo_repaired (q : Q) (ops : List Op) :
     q.items ++ acceptedOf (runF q ops).2.2 = leftOf (runF q ops).2.2 ++ (runF q ops).1.items :=
   runF_fifo q ops
 
+/-- the repaired model — the one the code now corresponds to (the repair is applied; the harness compares
+    with `stepF`) — differs from `step` in the timed get only, where it is a single GetNoWait; so every
+    per-operation theorem above about put / putForce / get / getNoWait / clear / setCapacity / size holds
+    for it verbatim, and `fifo_repaired` / `conservation_repaired` are the history-level statements -/
+theorem repaired_model_differs_only_in_timed_get (q : Q) (op : Op) :
+    ((∀ k, op ≠ .getTimeout k) → stepF q op = step q op) ∧
+    (∀ k, stepF q (.getTimeout k) = step q .getNoWait) :=
+  ⟨stepF_other q op, fun k => stepF_getTimeout q k⟩
+
 /-- … and the double queue's timed get serves the second queue only if the first is empty -/
 theorem double_priority_timed_repaired (d : DQ) (k : Nat) (x : Nat)
     (h : (2, Ev.delivered x) ∈ (dstepF d (.getTimeout k)).2.2) : d.q1.items = [] :=
@@ -291,6 +300,12 @@ theorem composite_body_is_exclusive (c1 c2 : Int) (pre : List (Act DOp)) (s s' :
     (hr : runActs SeqSpec.dqstep s others = some s') :
     s'.sh = s.sh ∧ s'.holder = some t ∧ s'.ph t = s.ph t ∧ linOps s'.log = linOps s.log :=
   foreign_run_in_cs SeqSpec.dqstep _ s s' (reachable_inv SeqSpec.dqstep _ pre s hs) t hcs others ho hr
+
+/-- non-vacuity: a thread inside `Clear` (lock taken, snapshot read) while another has invoked `Put1` -/
+example :
+    (Conc.runActs SeqSpec.dqstep (Conc.initSt ⟨⟨[], 2⟩, ⟨[], 2⟩⟩)
+      [.inv 1 .clear, .acq 1, .load 1, .inv 2 (.put1 7)]).map (fun s => (s.holder, Conc.linOps s.log)) =
+    some (some 1, []) := by rfl
 
 /-- **what the outer lock is for**: done as two separately locked halves (each list still protected by its
     own mutex — no data race, no sequential difference) Clear is not atomic … -/
